@@ -161,6 +161,10 @@ impl SocketRecv for RepSocket {
                                 break;
                             }
                         }
+                        if at >= m.len() {
+                            // Nothing follows the delimiter: there is no request to hand over.
+                            return Err(ZmqError::Other("Invalid message format"));
+                        }
                         let data = m.split_off(at);
                         self.envelope = Some(m);
                         self.current_request = Some(peer_id);
